@@ -253,20 +253,25 @@ def case_digest(case: Any) -> str:
     return hashlib.sha1(json.dumps(case, sort_keys=True, default=str).encode()).hexdigest()
 
 
+def safe_run_real(mod, case: dict, stats: "Stats | None" = None) -> list[str]:
+    """the real code must not crash the harness: an unexpected exception is an observable"""
+    try:
+        return mod.run_real(case)
+    except InfraError:
+        raise
+    except Exception as e:
+        if stats is not None:
+            stats.errors[type(e).__name__] = stats.errors.get(type(e).__name__, 0) + 1
+        if os.environ.get("VERIF_DEBUG"):
+            traceback.print_exc()
+        return [f"harness-exc {type(e).__name__}: {e}"]
+
+
 def evaluate_cases(mod, cases: list[dict], stats: Stats, *, use_model: bool, sample_every: int = 0) -> None:
     """run real + model on the cases, diff, oracle. Appends to stats."""
     reals: list[list[str]] = []
     for c in cases:
-        try:
-            r = mod.run_real(c)
-        except InfraError:
-            raise
-        except Exception as e:  # the real code must not crash the harness: it is an observable
-            r = [f"harness-exc {type(e).__name__}: {e}"]
-            stats.errors[type(e).__name__] = stats.errors.get(type(e).__name__, 0) + 1
-            if os.environ.get("VERIF_DEBUG"):
-                traceback.print_exc()
-        reals.append(r)
+        reals.append(safe_run_real(mod, c, stats))
     model_out: dict[str, list[str]] = {}
     if use_model and hasattr(mod, "model_input"):
         batch = []
@@ -300,7 +305,7 @@ def evaluate_cases(mod, cases: list[dict], stats: Stats, *, use_model: bool, sam
 
 def shrink_case(mod, case: dict, why: str) -> tuple[dict, list[str], str]:
     """greedy shrinking while the oracle keeps firing"""
-    real = mod.run_real(case)
+    real = safe_run_real(mod, case)
     if not hasattr(mod, "shrink"):
         return case, real, why
     budget = 400
@@ -312,7 +317,7 @@ def shrink_case(mod, case: dict, why: str) -> tuple[dict, list[str], str]:
             if budget <= 0:
                 break
             try:
-                r = mod.run_real(cand)
+                r = safe_run_real(mod, cand)
                 w = mod.oracle(cand, r)
             except Exception:
                 continue
@@ -355,7 +360,7 @@ def replay(mod, path: Path) -> int:
     if case is None:
         print(json.dumps(obj, indent=1))
         return 0
-    real = mod.run_real(case)
+    real = safe_run_real(mod, case)
     print("REAL:")
     print("\n".join(real))
     if hasattr(mod, "model_input") and mod.model_input(case, real) is not None and DRIVER.exists():
@@ -373,6 +378,9 @@ def replay(mod, path: Path) -> int:
 def _check(mod, prop_id: str, tier: str, seed: int, t0: float) -> int:
     rng = sub_rng(seed, prop_id, tier)
     notes: list[str] = []
+    if REPLAYS.is_dir():
+        for old in REPLAYS.glob(f"{prop_id}-*.json"):
+            old.unlink(missing_ok=True)
     # ---- A. translate
     if hasattr(mod, "translate"):
         mod.translate()
